@@ -39,11 +39,14 @@ MANIFEST = dict(
          "numbers or booleans written unquoted where a string is expected (YAML rejects them, HCL converts).",
 )
 
-STYLES = ["hcl", "hcll", "yaml", "yamla"]
+STYLES = ["hcl", "hcll", "yaml", "yamla"]          # rendered for every case
+EXTRA = ["yml", "json"]                           # documented extensions, on a share of the cases
 CFG_INVS = ["AcceptedHcl", "AcceptedHclL", "AcceptedYaml", "AcceptedYamlA", "CfgHcl", "CfgHclL", "CfgYaml", "CfgYamlA",
-            "AmmoHcl", "AmmoHclL", "AmmoYaml", "AmmoYamlA", "OptionalSurvive", "AmmoShape", "DefaultsApplied"]
+            "AmmoHcl", "AmmoHclL", "AmmoYaml", "AmmoYamlA", "AcceptedYml", "CfgYml", "AmmoYml",
+            "AcceptedJson", "CfgJson", "AmmoJson", "Complete", "OptionalSurvive", "AmmoShape", "DefaultsApplied"]
 TRACE_CONSTS = """CONSTANTS
   Tokens = {}
+  CoreTokens = {}
   DelimTokens = {}
   OpTokens = {}
   DropField = ""
@@ -152,7 +155,7 @@ def report(v, rows, bad, base, binary):
         invs = sorted(bad[ln])
         cls = case_class(row["key"], base)
         detail = []
-        for st in STYLES:
+        for st in [x for x in STYLES + EXTRA if x in row["out"]]:
             o = resolve(row["out"], st)
             if o["err"]:
                 detail.append("%s: rejected: %s" % (st, o["err"][:300]))
@@ -168,7 +171,7 @@ def report(v, rows, bad, base, binary):
                         row["id"], row["key"]["k"], cls, ",".join(invs), " | ".join(detail)[:1500] or "see replay"),
                     replay_obj={"key": row["key"], "invariants": invs, "desc": e["desc"],
                                 "expected": {"cfg": e["cfg"], "ammo": e["ammo"]},
-                                "observed": {st: resolve(row["out"], st) for st in STYLES},
+                                "observed": {st: resolve(row["out"], st) for st in row["out"]},
                                 "rendered": txt[i]["texts"]},
                     replay_name="case_%s_%d.json" % (row["key"]["k"], row["id"]))
     for ln in sorted(bad)[40:]:
@@ -177,27 +180,21 @@ def report(v, rows, bad, base, binary):
                     "case %d: invariant(s) %s fail (no replay file: more than 40 failing cases)" % (row["id"], sorted(bad[ln])))
 
 
+_SUFFIX = {"hcl": "Hcl", "hcll": "HclL", "yaml": "Yaml", "yamla": "YamlA", "yml": "Yml", "json": "Json"}
+
+
 def validate(v, trace, rows, base, binary, workers=8, timeout=900):
-    """All invariants on every line; then, for the failing lines only, one run per invariant (TLC -continue
-    reports only the first violated invariant of a state)."""
+    """All invariants on every line.  TLC -continue reports only the first violated invariant of a state, but the
+    state itself carries `bad`, the set of all statements that fail on that line (computed by TLC in the action)."""
+    import re
     tr = trace_check(trace, len(rows), CFG_INVS, workers, timeout, "all")
-    first = {}
+    bad = {}
     for inv, st in tr.all_violations:
         ln = int(st.get("l", "0"))
-        if ln >= 1:
-            first.setdefault(ln, set()).add(inv)
-    bad = {ln: set(s) for ln, s in first.items()}
-    if first:
-        lns = sorted(first)[:200]
-        d = vlib.scratch()
-        sub = os.path.join(d, "bad.ndjson")
-        vlib.write_ndjson(sub, [rows[ln - 1] for ln in lns])
-        with concurrent.futures.ThreadPoolExecutor(max_workers=5) as ex:
-            for t2 in ex.map(lambda inv: trace_check(sub, len(lns), [inv], 2, 600, "one_" + inv), CFG_INVS):
-                for inv2, st in t2.all_violations:
-                    j = int(st.get("l", "0"))
-                    if j >= 1:
-                        bad[lns[j - 1]].add(inv2)
+        if ln < 1:
+            continue
+        names = {what + _SUFFIX.get(style, style) for what, style in re.findall(r'<<"(\w+)", "(\w+)">>', st.get("bad", ""))}
+        bad.setdefault(ln, set()).update(names | {inv})
     report(v, rows, bad, base, binary)
     return tr, len(bad)
 
@@ -251,21 +248,31 @@ def run(tier, v):
                    heap="2g", deadlock=False, timeout=600)
     vlib.tlc_must_fail(neg, "TraceScenarioConfig_neg (oracle that forgets tag must reject the real traces)")
     kinds = collections.Counter(r_["key"]["k"] for r_ in rows)
+    by_style = collections.Counter(st for r_ in rows for st in r_["out"])
+    nrend = sum(by_style.values())
+    if min(by_style.get(st, 0) for st in STYLES) != len(rows) or min(by_style.get(st, 0) for st in EXTRA) < 50:
+        raise vlib.MachineryError("driver rendered too few styles: %s" % dict(by_style))
     distinct = len({json.dumps(g["desc"], sort_keys=True) for g in gen})
     identical = sum(1 for r_ in rows if all(r_["out"][s].get("same") for s in STYLES[1:]))
+    # a few cases written out, with the head of two of their renderings
+    picks = rows[5::max(1, len(rows) // 4)][:4]
+    sub, tx = os.path.join(d, "sample_cases.ndjson"), os.path.join(d, "sample_texts.ndjson")
+    vlib.write_ndjson(sub, [gen[r_["id"] - 1] for r_ in picks])
+    vlib.run_driver(binary, ["scenconfig", "-cases", sub, "-out", os.path.join(d, "sample_out.ndjson"), "-texts", tx])
+    texts = vlib.read_ndjson(tx)
     samples = []
-    for r_ in rows[5::max(1, len(rows) // 5)][:5]:
+    for r_, t in zip(picks, texts):
         o = resolve(r_["out"], "yaml")
         samples.append({"id": r_["id"], "kind": r_["key"]["k"], "case": case_class(r_["key"], base),
                         "all_renderings_identical": all(r_["out"][s].get("same") for s in STYLES[1:]),
                         "scenarios_in_ammo": [a["name"] for a in (o.get("ammo") or [])],
-                        "first_request": (o.get("cfg") or {}).get("requests", (o.get("cfg") or {}).get("calls", [{}]))[:1]})
+                        "hcl_locals_head": t["texts"]["hcll"][:700], "yaml_anchors_head": t["texts"]["yamla"][:500]})
     cov = {
         "states": states + tr.distinct, "transitions": trans + tr.generated,
         "design_states": states, "trace_spec_states": tr.distinct,
         "traces_validated_against_impl": len(rows),
-        "renderings_validated": len(rows) * len(STYLES),
-        "exhaustive": True, "evaluations": len(rows) * len(STYLES), "distinct_nontrivial": distinct,
+        "renderings_validated": nrend, "renderings_by_style": dict(by_style),
+        "exhaustive": True, "evaluations": nrend, "distinct_nontrivial": distinct,
         "rule": "one case per key of ScenarioConfig!Cases (flag groups fully, flag pairs fully, single string and number "
                 "substitutions); each rendered 4 ways and run through ReadAmmoConfig and the registered provider; "
                 "distinct = distinct abstract descriptions",
